@@ -78,6 +78,16 @@ type c11gen struct {
 	r    *hlib.Rng
 	jobs []func(g *c11gen) *hlib.Case // sandbox cases: run on a worker pool, emitted in queue order
 	out  *hlib.Case                   // set while a job runs: where emit puts the case
+	bad  bool                         // a request of the current case failed at transport level (no HTTP status)
+}
+
+// req is c11req that remembers transport failures: such a case is reported as inconclusive, never as a verdict
+func (g *c11gen) req(addr, method, target string, hdr [][2]string, body []byte) (int, http.Header, []byte) {
+	code, h, rb := g.req(addr, method, target, hdr, body)
+	if code == 0 {
+		g.bad = true
+	}
+	return code, h, rb
 }
 
 // emit writes a case directly (pure streams) or hands it to the job runner
@@ -509,6 +519,56 @@ func (g *c11gen) emitUnesc(raw, kind string) {
 		Sample: map[string]interface{}{"op": "url.PathUnescape", "in": c11show(raw), "out": c11show(o), "err": err != nil}})
 }
 
+func (g *c11gen) emitDigest(raw, kind string) {
+	d, err := core.ParseSHA256Digest(raw)
+	h := ""
+	if err == nil {
+		h = d.Hex()
+	}
+	g.emit(hlib.Case{Coq: "CDigest " + c11xs(raw) + " " + c11opt(err == nil, h), NT: err == nil, Kind: "digest-" + kind,
+		Hist:   []string{"ParseSHA256Digest"},
+		Sample: map[string]interface{}{"op": "core.ParseSHA256Digest", "in": c11show(raw), "hex": h, "err": err != nil}})
+}
+
+// digest strings: valid (lower / upper / mixed case), and hostile look-alikes
+func (g *c11gen) digestName() (string, string) {
+	hx := c11digest(fmt.Sprintf("d%d", g.r.U64())).Hex()
+	switch k := g.r.Intn(20); {
+	case k < 6:
+		return "sha256:" + hx, "valid"
+	case k < 7:
+		return "sha256:" + strings.ToUpper(hx), "valid-upper"
+	case k < 8:
+		return "sha256:" + strings.ToUpper(hx[:10]) + hx[10:], "valid-mixed"
+	case k < 9:
+		return "sha256:" + strings.Repeat("../", 21) + "a", "dotdot-64"
+	case k < 10:
+		return "sha256:../../../../" + hx, "dotdot-prefix"
+	case k < 11:
+		return "sha256:" + hx[:62] + "..", "dotdot-tail"
+	case k < 12:
+		return "sha256:" + hx[:30] + "/../" + hx[34:], "dotdot-middle"
+	case k < 13:
+		return "sha256:" + hx[:g.r.Intn(64)], "short"
+	case k < 14:
+		return "sha256:" + hx + hx[:g.r.Range(1, 4)], "long"
+	case k < 15:
+		return g.pick([]string{"sha1:", "SHA256:", "sha256", ":", "", "sha256::", "md5:"}) + hx, "algo"
+	case k < 16:
+		return "sha256:" + hx + ":" + hx, "two-colons"
+	case k < 17:
+		return "sha256:" + strings.Repeat(".", 64), "dots-64"
+	case k < 18:
+		return g.pick(c11whole), "hostile"
+	case k < 19:
+		b := []byte("sha256:" + hx)
+		b[7+g.r.Intn(64)] = []byte("./g\x00 %:G")[g.r.Intn(8)]
+		return string(b), "one-bad-char"
+	default:
+		return "sha256:" + hx[:32] + "\x00" + hx[33:], "nul"
+	}
+}
+
 func (g *c11gen) emitLocal(dir, name, kind string) {
 	e, err := base.NewLocalFileEntryFactory().Create(name, base.NewFileState(dir))
 	p := ""
@@ -546,7 +606,8 @@ func c11routeServer() (string, func()) {
 }
 
 func (g *c11gen) emitRoute(addr, raw, kind string) {
-	code, _, body := c11req(addr, "GET", "/p/"+raw+"/end", nil, nil)
+	g.bad = false
+	code, _, body := g.req(addr, "GET", "/p/"+raw+"/end", nil, nil)
 	op, on := "None", "None"
 	nt := false
 	var sp, sn string
@@ -562,7 +623,7 @@ func (g *c11gen) emitRoute(addr, raw, kind string) {
 			nt = true
 		}
 	}
-	g.emit(hlib.Case{Coq: "CRoute " + c11xs(raw) + " " + op + " " + on, NT: nt, Kind: "route-" + kind, Hist: []string{"chi+ParseParam"},
+	g.emit(hlib.Case{Coq: "CRoute " + c11xs(raw) + " " + op + " " + on, NT: nt, Kind: "route-" + kind, Hist: []string{"chi+ParseParam"}, Incon: g.bad,
 		Sample: map[string]interface{}{"op": "GET /p/{x}/end", "raw": c11show(raw), "status": code, "chi_param": c11show(sp), "parsed": c11show(sn)}})
 }
 
@@ -624,10 +685,11 @@ const (
 	c11ClusterUpload
 	c11InternalUpload
 	c11DupCommit
+	c11BlobName
 )
 
 var c11epName = []string{"tag-put-get", "tag-duplicate-put-get", "tag-get-empty", "tag-duplicate-put-replicate",
-	"origin-cluster-upload", "origin-internal-upload", "origin-duplicate-commit"}
+	"origin-cluster-upload", "origin-internal-upload", "origin-duplicate-commit", "origin-blob-name"}
 
 func (g *c11gen) emitTag(i, ep int, raw, kind string) {
 	b := c11newBox(g.ctx.Tmp, i)
@@ -652,7 +714,7 @@ func (g *c11gen) emitTag(i, ep int, raw, kind string) {
 	ok, leak := true, false
 	var hist []string
 	do := func(method, target string, body []byte, want string) {
-		code, _, rb := c11req(addr, method, target, nil, body)
+		code, _, rb := g.req(addr, method, target, nil, body)
 		hist = append(hist, method+" "+strings.SplitN(strings.TrimPrefix(target, "/"), "/", 2)[0])
 		if b.leaked(rb) {
 			leak = true
@@ -679,14 +741,11 @@ func (g *c11gen) emitTag(i, ep int, raw, kind string) {
 	g.emitHTTP(ep, raw, "", ok, files, outside, leak, kind, hist)
 }
 
-func (g *c11gen) emitOrigin(i, ep int, mk func(g *c11gen, uid string) (string, string)) {
-	b := c11newBox(g.ctx.Tmp, i)
-	defer b.close()
-	cdir, udir := filepath.Join(b.w, "c"), filepath.Join(b.w, "u")
+// a real origin blobserver on a real CAStore
+func c11origin(cdir, udir string) (string, func()) {
 	cas, err := store.NewCAStore(store.CAStoreConfig{UploadDir: udir, CacheDir: cdir,
 		UploadCleanup: store.CleanupConfig{Disabled: true}, CacheCleanup: store.CleanupConfig{Disabled: true}}, tally.NoopScope)
 	c11must(err)
-	defer cas.Close()
 	const host = "origin1:80"
 	ring := hashring.New(hashring.Config{MaxReplica: 1}, hostlist.Fixture(host), healthcheck.IdentityFilter{}, tally.NoopScope)
 	bm := backend.ManagerFixture()
@@ -696,6 +755,43 @@ func (g *c11gen) emitOrigin(i, ep int, mk func(g *c11gen, uid string) (string, s
 		c11clusterProvider{}, core.PeerContextFixture(), bm, br, mg, c11retry{})
 	c11must(err)
 	addr, stop := c11serve(srv.Handler())
+	return addr, func() { stop(); cas.Close() }
+}
+
+// hostile blob name (digest parameter) against the origin: start an upload, download, delete
+func (g *c11gen) emitBlobName(i int, raw, kind string) {
+	b := c11newBox(g.ctx.Tmp, i)
+	defer b.close()
+	cdir, udir := filepath.Join(b.w, "c"), filepath.Join(b.w, "u")
+	addr, stop := c11origin(cdir, udir)
+	defer stop()
+	skip := map[string]bool{cdir: true, udir: true}
+	before := c11snap(b.base, skip)
+	leak := false
+	var hist []string
+	call := func(method, target string) int {
+		code, _, rb := g.req(addr, method, target, nil, nil)
+		hist = append(hist, method+" blob")
+		if b.leaked(rb) {
+			leak = true
+		}
+		return code
+	}
+	ok := c11ok(call("POST", "/internal/blobs/"+raw+"/uploads"))
+	call("GET", "/namespace/ns/blobs/"+raw)
+	call("HEAD", "/internal/namespace/ns/blobs/"+raw)
+	call("GET", "/internal/namespace/ns/blobs/"+raw+"/metainfo")
+	call("DELETE", "/internal/blobs/"+raw)
+	files := append(c11files(cdir, "c/"), c11files(udir, "u/")...)
+	outside := c11diff(before, c11snap(b.base, skip))
+	g.emitHTTP(c11BlobName, raw, "", ok, files, outside, leak, kind, hist)
+}
+
+func (g *c11gen) emitOrigin(i, ep int, mk func(g *c11gen, uid string) (string, string)) {
+	b := c11newBox(g.ctx.Tmp, i)
+	defer b.close()
+	cdir, udir := filepath.Join(b.w, "c"), filepath.Join(b.w, "u")
+	addr, stop := c11origin(cdir, udir)
 	defer stop()
 
 	skip := map[string]bool{cdir: true, udir: true}
@@ -705,7 +801,7 @@ func (g *c11gen) emitOrigin(i, ep int, mk func(g *c11gen, uid string) (string, s
 	var hist []string
 	leak := false
 	call := func(method, target string, hdr [][2]string, body []byte) (int, http.Header) {
-		code, h, rb := c11req(addr, method, target, hdr, body)
+		code, h, rb := g.req(addr, method, target, hdr, body)
 		hist = append(hist, method+" "+c11epName[ep])
 		if b.leaked(rb) {
 			leak = true
@@ -764,7 +860,7 @@ func (g *c11gen) emitOrigin(i, ep int, mk func(g *c11gen, uid string) (string, s
 func (g *c11gen) emitHTTP(ep int, raw, aux string, ok bool, files []string, outside int, leak bool, kind string, hist []string) {
 	g.emit(hlib.Case{
 		Coq: fmt.Sprintf("CHttp %d %s %s %s %s %d %s", ep, c11xs(raw), c11xs(aux), hlib.B(ok), c11list(files), outside, hlib.B(leak)),
-		NT:  ok, Kind: c11epName[ep] + "-" + kind, Hist: hist,
+		NT:  ok, Kind: c11epName[ep] + "-" + kind, Hist: hist, Incon: g.bad,
 		Key: fmt.Sprintf("%d|%s|%v", ep, raw, ok),
 		Sample: map[string]interface{}{"endpoint": c11epName[ep], "raw_param": c11show(raw), "genuine_uid": aux, "all_2xx": ok,
 			"files_in_store_dirs": fmt.Sprintf("%q", files), "changed_outside_store_dirs": outside, "decoy_content_returned": leak}})
@@ -889,6 +985,14 @@ func c11(ctx *hlib.Ctx) {
 			g.later(func(g *c11gen) { g.emitOrigin(i, ep, func(_ *c11gen, uid string) (string, string) { return f(uid) }) })
 		}
 	}
+	for _, raw := range []string{"sha256:" + c11digest("x").Hex(), "sha256:" + strings.Repeat("..%2F", 12) + "aaaa", "sha256:%2E%2E", "%2E%2E", "sha256:" + strings.Repeat(".", 64),
+		"sha256%3A" + c11digest("y").Hex(), "sha256:" + strings.ToUpper(c11digest("z").Hex())} {
+		i := next()
+		g.later(func(g *c11gen) { g.emitBlobName(i, raw, "seed") })
+	}
+	for _, raw := range []string{"", "sha256:", ":", "sha256:" + c11digest("x").Hex(), "sha256:" + strings.Repeat("../", 21) + "a", "sha256:" + c11digest("x").Hex() + ":"} {
+		g.emitDigest(raw, "seed")
+	}
 	hexd := c11digest("x").Hex()
 	for _, d := range []string{"/c", "/", "", ".", "..", "/a/../c/"} {
 		for _, n := range []string{hexd, "ab", "abc", "abcd", "a", "0123456789"} {
@@ -964,9 +1068,12 @@ func c11(ctx *hlib.Ctx) {
 				raw, ek = g.breakRaw(raw), "enc-broken"
 			}
 			g.emitUnesc(raw, nk+"-"+ek)
-		case k < 92:
+		case k < 89:
 			raw, rk := g.rawName()
 			g.emitRoute(raddr, raw, rk)
+		case k < 93:
+			dn, dk := g.digestName()
+			g.emitDigest(dn, dk)
 		default:
 			if g.r.Chance(70) {
 				hx := c11digest(name).Hex()
@@ -989,6 +1096,16 @@ func c11(ctx *hlib.Ctx) {
 	}
 	for i := 0; i < nHTTP; i++ {
 		switch k := g.r.Intn(10); {
+		case k < 1:
+			for {
+				dn, dk := g.digestName()
+				raw, ek := g.encode(dn)
+				if dn != "" && c11rawOK(raw) {
+					k := next()
+					g.later(func(g *c11gen) { g.emitBlobName(k, raw, dk+"-"+ek) })
+					break
+				}
+			}
 		case k < 6:
 			raw, rk := g.rawName()
 			ep := []int{c11TagPutGet, c11TagDupPutGet, c11TagDupPutGet, c11TagGet, c11TagDupPutReplicate}[g.r.Intn(5)]
